@@ -258,14 +258,23 @@ DoLoseControllership ==
   /\ obs' = [a |-> "Lose", err |-> ""]
   /\ UNCHANGED <<pvars, pend, taint>>
 
-\* The partition object is rebuilt from its persisted form (pause + resume of the
-\* stream: PAUSE_STREAM / RESUME_STREAM -> replacePartition; a snapshot restore does
-\* the same): the in-sync set is what was persisted; the failover status of the
-\* old object is out of reach (the map is keyed by the object).
+\* The partition object is rebuilt from its persisted form.  Two routes lead there:
+\*   how = "resume"   pause + resume of the stream (PAUSE_STREAM / RESUME_STREAM ->
+\*                    replacePartition -> newPartition(old.Partition))
+\*   how = "restore"  the controller's FSM is handed a snapshot of its own state
+\*                    (Server.Snapshot -> fsmSnapshot.Persist -> Server.Restore:
+\*                    metadata.Reset, applyCreateStream per stream of the snapshot,
+\*                    finishRestore) - what a restart behind a Raft snapshot and an
+\*                    InstallSnapshot do
+\* Either way the in-sync set is what was persisted, leader and both epochs are what
+\* the protobuf carried, and the failover status of the old object is out of reach
+\* (the map is keyed by the object; Reset also cancels every status).  The abstract
+\* effect is the same; `how` selects the code path that is bound.
 \* (domain: no request is inside ReportLeader / ShrinkISR / ExpandISR)
-DoRebuild ==
+DoRebuild(how) ==
   IF ~exists THEN Refuse("Rebuild", "nostream")
   ELSE
+    /\ how \in {"resume", "restore"}
     /\ isr' = pisr /\ pisr' = pisr
     /\ fo' = NoFo /\ armed' = FALSE /\ good' = good
     /\ obs' = [a |-> "Rebuild", err |-> ""]
